@@ -74,3 +74,15 @@ Proof.
   intros Hv. cbn [alloc_scan]. rewrite <- gen_alloc_skip. destruct (Gen.alloc_skip (s_p s) (s_h s) (ft s) i) eqn:E; [reflexivity|].
   destruct need as [|nd]; [reflexivity|]. rewrite (gen_alloc_take s _ i Hv E). reflexivity.
 Qed.
+
+(** * the release of a chain: the model's [free_chain] marks every cluster of the chain with the regenerated free mark and moves the hint by the
+    regenerated step of [free_cluster_chain], cluster by cluster in the order of the chain *)
+Lemma fold_min_gen cs : forall h, fold_left Z.min cs h = fold_left (fun a cl => Gen.free_hint_step cl a) cs h.
+Proof. induction cs as [|c r IH]; intros h; cbn [fold_left]; [reflexivity|]. unfold Gen.free_hint_step at 2. rewrite (Z.min_comm c h). apply IH. Qed.
+Theorem free_chain_gen s c s' cs : free_chain s c = Ok s' -> chain_all s c = Ok cs ->
+  s_fat s' = fold_left (fun f cl => updZ f cl (Gen.free_mark (ft s))) cs (s_fat s) /\
+  s_hint s' = fold_left (fun a cl => Gen.free_hint_step cl a) cs (s_hint s).
+Proof.
+  intros Hf Hc. unfold free_chain in Hf. destruct (s_ro s); [discriminate|]. rewrite Hc in Hf. cbn [bind] in Hf. inversion Hf; subst.
+  cbn [s_fat s_hint upd_fat]. split; [reflexivity | apply fold_min_gen].
+Qed.
